@@ -1,5 +1,8 @@
 //! asemon: runtime monitors for alpine-alpaca/asefile (see /verif/DESIGN.md).
 pub mod blendref;
+pub mod blendscan;
+pub mod corpus;
+pub mod decode;
 pub mod common;
 pub mod encode;
 pub mod expect;
